@@ -41,6 +41,8 @@ var c04Alpha = []string{
 	"and", "or", "div", "mod", "not", "count", "concat", "current", "deref", "text", "true", "last", "string", "substring",
 	"child", "parent", "self", "ancestor", "node", "comment", "processing-instruction",
 	"#", "!", "{", "\\", "1e5", "a-b", "''", ":", "$", "nosuchfn",
+	// names that are operator names only in lower case
+	"AND", "Or", "DIV", "Mod",
 }
 
 var c04LrAlpha = []string{
